@@ -38,7 +38,13 @@ from .constants import DIAMETER_AGENT_SERVER_MODE
 from .constants import DIAMETER_AGENT_TRANSPORT_TYPE_TCP
 from .constants import DIAMETER_AGENT_TRANSPORT_TYPE_SCTP
 from .constants import DIAMETER_HEADER_LENGTH
+from .exceptions import AVPAttributeValueError
 from .exceptions import AVPParsingError
+from .exceptions import DataTypeError
+from .exceptions import DiameterAvpError
+from .exceptions import DiameterHeaderAttributeValueError
+from .exceptions import DiameterMessageError
+from .exceptions import DiameterTypeError
 from .exceptions import DiameterApplicationError
 from .exceptions import DiameterAssociationError
 from .messages import DiameterAnswer
@@ -233,8 +239,13 @@ class DiameterAssociation(object):
                 
                     diameter_conn_logger.debug(f"Found {len(msgs)} Diameter "\
                                                f"Message(s).")
-                except AVPParsingError:
-                    diameter_conn_logger.exception(f"AVPParsingError has "\
+                except (AVPParsingError, AVPAttributeValueError, 
+                        DataTypeError, DiameterAvpError, 
+                        DiameterHeaderAttributeValueError, 
+                        DiameterMessageError, DiameterTypeError):
+                    #: Any of the library's own parsing errors: the message 
+                    #: is dropped, the worker and the connection stay up.
+                    diameter_conn_logger.exception(f"Parsing error has "\
                                                    f"been raised due stream: "\
                                                    f"{stream.hex()}")
 
